@@ -306,3 +306,24 @@ META["C07"] = dict(
     level_note="Trusts FromStr/serde_json as references and the classification of silent forms. One fixed catalogue of signatures, sampled inputs.",
     design_ref="DESIGN.md §5 C07",
 )
+
+PLANS["C09"] = dict(
+    level="exploration",
+    rule=("(a) round trip to_string -> from_bytes of generated values of single-field structs over every supported field type (bool, 10 integer widths at MIN/MAX/0/+-1/random, f32/f64 incl. "
+          "subnormals, -0.0, inf, NaN, random bit patterns, char over all planes incl. & = % + , space, String of arbitrary Unicode and reserved characters, newtypes, Option<String>, Option<u32>, "
+          "unit enums incl. a renamed variant with a space, Vec<String>, Vec<u32>, (u8, String), BTreeMap<String,String> with arbitrary keys) and an 11-field mixed struct; (b) generated "
+          "key=value&... texts with randomly styled percent-escapes (upper/lower hex, escaped unreserved characters, multi-byte UTF-8, raw '+'), decoded into a string map, into a struct (shuffled "
+          "order, unknown extra pairs, percent-escaped digits) and read through req.query.iter() of a request parsed by the real reader; oracle: value equality (floats bitwise, NaN~NaN) and an "
+          "independent split + RFC 3986 decoder. distinct_nontrivial = distinct (type, value class) and (target, shape) pairs."),
+    quick=[R("c09", "rel", 12_000), R("c09", "miri", 8, shards=8, flags={"small": 1})],
+    thorough=[R("c09", "rel", 400_000), R("c09", "dbg", 60_000), R("c09", "asan", 60_000), R("c09", "miri", 96, shards=16, flags={"small": 1})],
+    floors={"quick": {"evaluations": 400_000, "distinct": 1_500, "round_trip_equal": 250_000, "query_iter_equal": 40_000}, "thorough": {"evaluations": 10_000_000, "distinct": 3_000}},
+    assumptions=["values the serializer refuses (raw bytes, nested maps) are outside the statement", "well-formed texts only: every pair has '=' and a non-empty key, every '%' starts a valid escape of UTF-8"],
+)
+META["C09"] = dict(
+    engine="vh c09",
+    technique="runtime monitoring: round-trip equality oracle and differential oracle (independent split-and-percent-decode reference) over generated values and encodings, on the real serializer, deserializer and query iterator",
+    level_text="Every generated value and text is pushed through the real code; the decoded result is compared with the original value / the reference pairs.",
+    level_note="Trusts the reference decoder and the value generators; sampled value space.",
+    design_ref="DESIGN.md §5 C09",
+)
